@@ -188,7 +188,7 @@ func runC01(r *chk.Run) {
 	if v := intEnv("VERIF_C01_DEPTH"); v > 0 {
 		depth = v
 	}
-	alpha := []string{UTxXID, UDDL, UTx2, UTxCommit, UAutoRows, UStmtIn, UStmtOut, USet, URotate, UTxDDL, UTxSplit, UTxFK, UTxFlagged}
+	alpha := []string{UTxXID, UDDL, UTx2, UTxCommit, UAutoRows, UStmtIn, UStmtOut, USet, URotate, UTxDDL, UTxSplit, UTxFK, UTxFlagged, UTxRollback, UTxSave}
 	hr := newHistRunner(r, "C01", checkGrouping)
 	cfgs := Cfgs()
 	// (1) every NULL / absent pattern of every image, every kind, every configuration
@@ -306,6 +306,12 @@ func runC01(r *chk.Run) {
 	RunRestart(r)
 	// values whose text shares its leading part with the value decoded before
 	RunSharedText(r)
+	// a table written again under a new id after a DDL that keeps its column count
+	RunSchemaChange(r)
+	// every event type code the library does not interpret, inside and between transactions
+	RunUnknownTypes(r)
+	// format descriptions of many server versions
+	RunServerVersions(r)
 	r.Validated(int64(ntcp))
 	r.Set("alphabet", alpha)
 	r.Set("depth", depth)
